@@ -26,6 +26,7 @@ type FuncInfo struct {
 	rets  map[ast.Node]int // return statement ordinal (1-based, syntactic order)
 	boxed map[*types.Var]bool
 	acqLock *string
+	renames map[string]string // contract name -> current name of a local renamed since the baseline
 }
 
 type Engine struct {
